@@ -199,6 +199,7 @@ type childResult struct {
 	progress []progLine
 	ended    bool // child wrote END
 	timedOut bool
+	apiFired int // faults injected at the log-writer interface ("F" lines of the progress file)
 }
 
 type progLine struct {
@@ -248,7 +249,7 @@ func selfBinary() string {
 // runChild executes the script in a child under strace. inject: strace -e inject
 // expressions; traceProgress adds the progress file to the traced paths (only for
 // runs without injection). snaps asks the child for a directory copy on every failed call.
-func runChild(ops []op, inject []string, traceProgress, views, snaps bool) (*childResult, error) {
+func runChild(ops []op, inject []string, traceProgress, views, snaps bool, api ...apiFault) (*childResult, error) {
 	root, err := os.MkdirTemp("", "c14k")
 	if err != nil {
 		return nil, err
@@ -257,7 +258,7 @@ func runChild(ops []op, inject []string, traceProgress, views, snaps bool) (*chi
 	if err := os.MkdirAll(res.base, 0o755); err != nil {
 		return res, err
 	}
-	job := childJob{Base: res.base, Progress: filepath.Join(root, "progress"), Views: views, Ops: ops}
+	job := childJob{Base: res.base, Progress: filepath.Join(root, "progress"), Views: views, Ops: ops, APIFaults: api}
 	if snaps {
 		job.MaxFail = 40
 		job.SnapDir = filepath.Join(root, "snaps")
@@ -306,6 +307,13 @@ func runChild(ops []op, inject []string, traceProgress, views, snaps bool) (*chi
 		return res, fmt.Errorf("strace produced no trace (%v; run error %v; output %s)", err, runErr, string(out))
 	}
 	res.progress, res.ended = parseProgress(job.Progress)
+	if pb, err := os.ReadFile(job.Progress); err == nil {
+		for _, l := range strings.Split(string(pb), "\n") {
+			if strings.HasPrefix(l, "F ") {
+				res.apiFired++
+			}
+		}
+	}
 	return res, nil
 }
 
@@ -716,8 +724,12 @@ type faultWitness struct {
 // copied at every failed call and the final directory reopen (without faults) to
 // the disk content of a state of the set - never a partial batch, never a
 // duplicate, never an unreadable log.
-func runFault(r *lib.Run, caseIdx int, sc script, inject []string) {
-	res, err := runChild(sc.Ops, inject, false, true, true)
+func runFault(r *lib.Run, caseIdx int, sc script, inject []string, api ...apiFault) {
+	var straceInject []string
+	if len(api) == 0 {
+		straceInject = inject
+	}
+	res, err := runChild(sc.Ops, straceInject, false, true, true, api...)
 	if res != nil {
 		defer os.RemoveAll(res.dir)
 	}
@@ -745,6 +757,13 @@ func runFault(r *lib.Run, caseIdx int, sc script, inject []string) {
 		if e.Injected {
 			injected++
 			r.Count("faults_injected:"+e.Name+":"+classifyPath(e.path()), 1)
+		}
+	}
+	if len(api) > 0 {
+		injected = res.apiFired
+		r.Count("log_writer_interface_faults_fired", res.apiFired)
+		for _, f := range api {
+			r.Count("log_writer_interface_fault_runs:"+f.Kind, 1)
 		}
 	}
 	if injected == 0 {
@@ -1123,5 +1142,40 @@ func straceLayer(r *lib.Run, t *testing.T) {
 	r.Count("fault_runs", len(fjobs))
 	r.Cases(len(fjobs), 0, func(k int) {
 		runFault(r, k, scripts[fjobs[k].script], fjobs[k].inject)
+	})
+	// (d) faults at the log-writer interface (apifault_test.go)
+	type apiJob struct {
+		script int
+		faults []apiFault
+	}
+	var ajobs []apiJob
+	for i := range scripts {
+		rng := lib.Rng("C14/api-faults", uint64(i))
+		var specs [][]apiFault
+		for _, kind := range []string{"write", "sync", "sync-lost"} {
+			specs = append(specs,
+				[]apiFault{{Kind: kind, When: 1 + rng.IntN(3)}},
+				[]apiFault{{Kind: kind, When: 2 + rng.IntN(12)}},
+				[]apiFault{{Kind: kind, When: 2 + rng.IntN(8), Step: 2 + rng.IntN(7)}})
+			if len(scripts[i].Ops) > 600 {
+				specs = append(specs, []apiFault{{Kind: kind, When: 250 + rng.IntN(30)}}) // around the 256th prune record
+			}
+		}
+		specs = append(specs,
+			[]apiFault{{Kind: "close", When: 1 + rng.IntN(3)}},
+			[]apiFault{{Kind: "close", When: 1 + rng.IntN(2), Step: 1 + rng.IntN(3)}},
+			[]apiFault{{Kind: pick(rng, "write", "sync", "sync-lost"), When: 2 + rng.IntN(6)}, {Kind: "close", When: 1 + rng.IntN(3)}},
+			[]apiFault{{Kind: "write", When: 2 + rng.IntN(5)}, {Kind: "sync", When: 8 + rng.IntN(5)}, {Kind: "sync-lost", When: 14 + rng.IntN(5)}})
+		if r.Quick() && scripts[i].Profile != "plain" {
+			rng.Shuffle(len(specs), func(a, b int) { specs[a], specs[b] = specs[b], specs[a] })
+			specs = specs[:6]
+		}
+		for _, sp := range specs {
+			ajobs = append(ajobs, apiJob{i, sp})
+		}
+	}
+	r.Count("log_writer_interface_fault_runs", len(ajobs))
+	r.Cases(len(ajobs), 0, func(k int) {
+		runFault(r, k, scripts[ajobs[k].script], apiFaultNames(ajobs[k].faults), ajobs[k].faults...)
 	})
 }
